@@ -250,6 +250,9 @@ class FloatLiteral(Literal[float]):
         super().__init__(token, value)
 
     def __str__(self) -> str:
+        if self.value in (float("inf"), float("-inf")):
+            # "inf" would be read back as the name of a variable.
+            return "1.0e999" if self.value > 0 else "-1.0e999"
         text = repr(self.value)
         mantissa, exp, exponent = text.partition("e")
         if exp and "." not in mantissa:
